@@ -49,7 +49,7 @@ def prepare(workdir):
 
 
 def obligations(tier):
-    obls = [cache_obl(2, 1), cache_obl(2, 1, kf='KF_C17_LAZY_INIT'), cache_obl(2, 1, warm=16), cache_obl(3, 1, warm=32)]      # warm: cache filled by an earlier transform, so concurrent readers (and reader -> writer upgrades) occur
+    obls = [cache_obl(2, 1), cache_obl(2, 1, kf='KF_C17_LAZY_INIT'), cache_obl(3, 1, warm=32)]      # warm: cache filled by an earlier transform, so concurrent readers (and reader -> writer upgrades) occur
     if tier == 'thorough':
         obls += [cache_obl(2, 1, timeout=2400, len4=1)]
     return obls
